@@ -111,7 +111,7 @@ func (c *Case) c02Check(opKind string, in *specqbft.SignedMessage, r ctrlResult,
 			if p == nil {
 				report("local-decision", cert, "no-accepted-proposal")
 			} else {
-				if len(p.Signers) != 1 || p.Signers[0] != specqbft.RoundRobinProposer(inst.State, p.Message.Round) {
+				if ld, ok := safeLeader(inst.State, p.Message.Round); len(p.Signers) != 1 || !ok || p.Signers[0] != ld {
 					report("local-decision", cert, "proposal-not-from-round-leader")
 				}
 				if p.Message.Root != cert.Message.Root || string(p.FullData) != string(cert.FullData) {
